@@ -9,7 +9,7 @@ loader.exec_module(chk)
 props = {json.loads(l)['id']: json.loads(l) for l in open(V + '/properties.jsonl')}
 
 TEXT = {
- 'C01': 'Chip invariant (bankroll = stack + wager + pot, non-negativity, round pot = wagers) proved as an inductive invariant of the Lean engine model over all configurations, operation sequences and Int amounts; pots/closing identities via the pot and settlement theorems; model tied to the Go code by differential runs on every check.',
+ 'C01': 'Every chip field of a reachable state is bounded by the chips in play (Int64Exact.fields_bounded). Chip invariant (bankroll = stack + wager + pot, non-negativity, round pot = wagers) proved as an inductive invariant of the Lean engine model over all configurations, operation sequences and Int amounts; pots/closing identities via the pot and settlement theorems; model tied to the Go code by differential runs on every check.',
  'C02': 'For real play the hypotheses of the layer theorems are discharged (in every reachable state a non-folded player covers every contribution: C02Play), a layer paid only by folded players is refunded. Settlement theorems over all contribution/fold/score vectors on the Lean model of pot.LevelList + settlement.Result (zero-sum, folded wins nothing, bounds, per-level winners, tie fairness after the round-robin repair), tied to the Go code by 10^5 random vectors per run plus every closed hand of the engine run.',
  'C03': 'score order = poker order for all valid five-card hands in any card order, both ranking tables: kernel-evaluated normal form over all 7462 rank/flush classes lifted by lemmas; constants regenerated from the Go source on every run; the finite domain is also compared exhaustively between Go and the model.',
  'C04': 'Every opening of a betting round and who is first to act there (C04Openings); at the wrappers of the table\'s driver of a hand (table/game.go, modelled, translated and run against the real code) a call that reaches the backend comes from the player to act (C06Driver.wrapper_acts_for_caller). one actor / first to act / clockwise / refusals without effect proved for every reachable state of the engine model, the first actor without the open-round hypothesis (C05Opens); malformed stream (every other seat x every action, out-of-phase operations) compared between Go and model.',
@@ -20,7 +20,7 @@ TEXT = {
  'C09': 'exactly one table, the re-entry forms of every theorem (C09One); conservation, hand-out once and counter agreement as invariants of regulator x environment on the wide domain (any setting with max >= 1, any status order) with totality, also with late release reports and with re-entries of eliminated names; refusals without effect for every state.',
  'C10': 'the published hand uses exactly the required number of hole cards (C10Published); enumeration = admissible selections (kernel table for Gosper\'s hack on the whole reachable domain), head of any sorted permutation is a maximum, reported category/cards/strength describe one hand, recomputed on every street, showdown uses the published strength — over all histories.',
  'C11': 'offered-action table and action effects proved for every reachable betting state.',
- 'C12': 'what a raise does on a pot-limit table, refusal exactly when raise is not offered (C12PotLimit); minimum-raise rule and amount safety for every Int amount on every reachable state.',
+ 'C12': 'every arithmetic expression of the player actions fits int64 for every int64 amount when chips and forced bets are below 2^62 (Int64Full.no_overflow); what a raise does on a pot-limit table, refusal exactly when raise is not offered (C12PotLimit); minimum-raise rule and amount safety for every Int amount on every reachable state.',
  'C13': 'forced bets characterised for every accepted configuration.',
  'C14': 'cards once dealt never change for any deck contents (C14AnyDeck); dealt cards = consumed top of the deck as an invariant over all histories; shuffle as arbitrary swap sequence is a permutation.',
  'C15': 'redaction theorems over all states; struct fields regenerated by reflection must all be classified.',
